@@ -357,7 +357,25 @@ def _r3_regex_expansion(ctx, rr: FuncInfo) -> None:
 
     class _S:  # SigmaString stand-in: parts are text, wildcards or placeholders
         def __init__(self, t="", escape=True):
-            self.parts = [t] if t else []
+            # the text is parsed: '*' and '?' are wildcard parts (a backslash protects them when escaping is on)
+            self.parts = []
+            acc, i = "", 0
+            while i < len(t):
+                c = t[i]
+                if escape and c == "\\" and i + 1 < len(t) and t[i + 1] in "*?\\":
+                    acc += t[i + 1]
+                    i += 2
+                    continue
+                if c in "*?":
+                    if acc:
+                        self.parts.append(acc)
+                        acc = ""
+                    self.parts.append(MULTI if c == "*" else SINGLE)
+                else:
+                    acc += c
+                i += 1
+            if acc:
+                self.parts.append(acc)
 
         def __add__(self, o):
             n = _S()
@@ -370,7 +388,8 @@ def _r3_regex_expansion(ctx, rr: FuncInfo) -> None:
             return n
 
         def __str__(self):
-            return "".join(p if isinstance(p, str) else (p.ch if isinstance(p, _SC) else f"%{p.name}%") for p in self.parts)
+            # the plain form: a wildcard character inside a text part is a literal one and printed escaped
+            return "".join(p.replace("*", "\\*").replace("?", "\\?") if isinstance(p, str) else (p.ch if isinstance(p, _SC) else f"%{p.name}%") for p in self.parts)
 
         def contains_placeholder(self, *a, **k):
             return any(isinstance(p, _PH) for p in self.parts)
@@ -462,6 +481,18 @@ def r9_alternatives_under_all(ctx) -> None:
             r.ok("C17.R9", f.qual, "AND-linked item: ['%a%', 'foo'] with a = [x, y] becomes [expansion(x, y), 'foo']", f.loc)
         else:
             r.violation("C17.R9", f.qual, f"AND-linked item after the transformation: {shown}", "specified [[x, y], foo]: the alternatives of one value must be kept together in an expansion (OR) when the values of the item are AND-linked", f.loc)
+        # one value only: still alternatives of that value
+        item1 = type("I", (), {})()
+        item1.field, item1.value_linking, item1.value = "f", AND, ["%a%"]
+        me1 = type("T", (), {})()
+        me1._apply_values = lambda field, values: (["x", "y"], True)
+        base1 = type("B", (), {"apply_detection_item": lambda self_, it_: (setattr(it_, "value", ["x", "y"]), it_)[1]})()
+        Interp({"self": me1, "detection_item": item1, "ConditionAND": AND, "ConditionOR": OR, "SigmaExpansion": _Exp, "super": lambda: base1}, max_steps=2000).call(f.node.body)
+        shown1 = [v.values if isinstance(v, _Exp) else v for v in item1.value]
+        if shown1 == [["x", "y"]]:
+            r.ok("C17.R9", f.qual, "AND-linked item with a single value: ['%a%'] becomes [expansion(x, y)]", f.loc)
+        else:
+            r.violation("C17.R9", f.qual, f"AND-linked item with one value after the transformation: {shown1}", "specified [[x, y]]: `f|contains|all|expand: '%admins%'` — the replacements of the only value are spliced into the AND-linked list (contains-all of every admin) instead of staying alternatives", f.loc)
         out, item = run(OR)
         if out == "DELEGATED" or [v.values if isinstance(v, _Exp) else v for v in item.value] in (["x", "y", "foo"], [["x", "y"], "foo"]):
             r.ok("C17.R9", f.qual, "OR-linked item: replacements join the (OR-linked) value list", f.loc)
